@@ -26,7 +26,7 @@ Lit(v) == [t |-> "lit", v |-> v]
 Ob(e) == [t |-> "obj", e |-> e]
 NLs(n) == [i \in 1..n |-> 10]
 
-ParseKinds == {"badobj", "badtag", "unknowntag", "strayend", "strayclause", "badif", "openif"}
+ParseKinds == {"badobj", "badtag", "unknowntag", "strayend", "strayclause", "badif", "openif", "openraw", "opencomment"}
 RenderKinds == {"filtererr", "converr", "nofilter", "strict", "nofile", "incarg"}
 Bad(k) ==
   CASE k \in ParseKinds -> [t |-> k]
